@@ -536,6 +536,49 @@ class C14(Spec):
                  "cases": r["tried"], "failures": r["failures"], "replay_kind": "ptr", "label": "bounded (not counted as proof)"}]
 
 
+class C20(Spec):
+    pid = "C20"
+    level = "proof"
+    design_ref = "DESIGN.md section 8 C20"
+    trusted = ["URIDict.normalize = urlsplit(uri).geturl() is an uninterpreted function shared by registration and lookup; that it maps `u` and `u#` to the same key is an ASSUMED property of urllib.parse, checked on the four bundled ids by the bounded run",
+               "the registry is an abstract map (presence and value per normalised key)"]
+    assumptions = ["`$schema`, when present, is a string", "that validate() and the CLI then behave as the selected class is C04's module-validate contract (cls taken from validator_for) and C19"]
+    explanation = "validator_for is proved, for an arbitrary registry state, to return the caller's default for a boolean / non-mapping / $schema-less schema without warning, the registered class for a registered (normalised) id without warning, and the latest draft with exactly one DeprecationWarning otherwise; validates(version)(cls) to write validators[version] and meta_schemas[cls's own metaschema id] and nothing else and to return cls; _LATEST_VERSION is the draft-7 class and create(version=...) registers through validates (AST)."
+
+    def tasks(self, root, tier):
+        from contracts import tasks_registry, tasks_entry
+        return tasks_registry.registry_tasks(root, _tmo(tier)) + [t for t in tasks_entry.entry_tasks(root, _tmo(tier)) if t.which == "module_validate"]
+
+    def select(self, ob, r):
+        return r["task"].startswith("registry:") or "cls-from-$schema" in ob["name"] or ob["kind"] == "P"
+
+    def failure_kinds(self):
+        return ("R",)
+
+    def table_obligations(self, repo, tabs):
+        import ast as _ast
+        recs = [{"name": "validators:_LATEST_VERSION/T/is-draft7", "kind": "T", "status": "discharged" if tabs.get("latest") == "Draft7Validator" else "failed",
+                 "solver": "tables", "note": "_LATEST_VERSION is %s" % tabs.get("latest")}]
+        for d in drafts.DRAFTS:
+            recs.append({"name": "validators:Draft%dValidator/T/version" % d, "kind": "T", "status": "discharged" if tabs[d].version == "draft%d" % d else "failed",
+                         "solver": "tables", "note": "created with version=%r, hence registered under its metaschema id" % tabs[d].version})
+        cr = repo.units["validators:create"].node
+        ok = any(isinstance(n, _ast.If) and _ast.unparse(n.test) == "version is not None" and
+                 any(isinstance(b, _ast.Assign) and _ast.unparse(b.value) == "validates(version)(Validator)" for b in n.body) for n in _ast.walk(cr))
+        recs.append({"name": "validators:create/T/registers-through-validates", "kind": "T", "status": "discharged" if ok else "failed", "solver": "tables",
+                     "note": "create(version=...) registers the new class by validates(version)(Validator) and only then"})
+        w, _ = write_frame_obligations(repo, tabs, ["validators:validator_for", "validators:validates", "validators:validates._validates"],
+                                       [("validators:validates._validates", "validators.[]"), ("validators:validates._validates", "meta_schemas.[]"),
+                                        ("_utils:URIDict.__setitem__", "self.store.[]")], "registration")
+        return recs + [r for r in w if not r["name"].startswith("frames/")]
+
+    def standins(self, root, tier):
+        from pyvc import driver
+        r = driver.rt_call("pyvc.rt_reg", {"cmd": "search", "root": root}, root, timeout=3000)
+        return [{"name": "draft-selection", "scope": "4 registered ids x {with, without '#'} x 13 probe schemas on which the drafts disagree, through validator_for, validate() (implicit and explicit class) and the CLI; missing/boolean/unknown/fragment-bearing $schema; a later create(version=...) and extend(version=...) registration",
+                 "cases": r["tried"], "failures": r["failures"], "replay_kind": "reg", "label": "bounded (not counted as proof)"}]
+
+
 class C18(Spec):
     pid = "C18"
     level = "other"
@@ -632,4 +675,4 @@ class C08(Spec):
         return out
 
 
-SPECS = {"C01": C01, "C03": C03, "C04": C04, "C05": C05, "C12": C12, "C13": C13, "C14": C14, "C07": C07, "C18": C18, "C06": C06, "C08": C08, "C09": C09, "C10": C10}
+SPECS = {"C01": C01, "C03": C03, "C04": C04, "C05": C05, "C12": C12, "C13": C13, "C14": C14, "C20": C20, "C07": C07, "C18": C18, "C06": C06, "C08": C08, "C09": C09, "C10": C10}
